@@ -38,6 +38,17 @@ func (t *Tmpl) args(root *gorm.DB) []interface{} {
 		}
 		return out
 	}
+	if t.Driver {
+		out := make([]interface{}, 0, len(t.ArgOrder))
+		for _, name := range t.ArgOrder {
+			for _, b := range t.Binds {
+				if b.Name == name {
+					out = append(out, sql.Named(name, b.A.goValue(root)))
+				}
+			}
+		}
+		return out
+	}
 	switch t.Carrier {
 	case "map":
 		m := map[string]interface{}{}
